@@ -512,7 +512,7 @@ def r3_loops(src, ctx, map_locals=()):
                 if by_value and re.match(r'^\w+$', expr) and expr in map_locals:
                     new = f'for {pat} in {expr}.into_iter() {{'
                     rule = 'R11'
-                elif by_value and re.match(r'^\w+(\.into_iter\(\))?$', expr) and not (expr.split('.')[0] in map_locals):
+                elif by_value and re.match(r'^\w+(\.\w+)*(\.into_iter\(\))?$', expr) and not (expr.split('.')[0] in map_locals):
                     itv = ctx.fresh('it')
                     mm = re.match(r'^(.*)\.into_iter\(\)\s*\.skip\((.*)\)$', expr, re.S)
                     if mm:
